@@ -212,6 +212,40 @@ class CursorModel:
         return ResultModel()
 
 
+class ConnectionModel:
+    """sqlite3.Connection as far as Database._connect / close use it"""
+
+    def __init__(self, path):
+        self.path = path
+        self.text_factory = None
+
+    def cursor(self):
+        emit("connection.cursor")
+        return CursorModel(0)
+
+    def commit(self):
+        emit("connection.commit")
+
+    def close(self):
+        emit("connection.close")
+
+
+def connect_model(path, **kwargs):
+    emit("sqlite3.connect", path)
+    return ConnectionModel(path)
+
+
+EXTERNAL_MODELS = {**RUST_MODELS, "sqlite3.connect": "contracts.C19.connect_model"}
+
+# opening a database file never deletes or replaces anything on disk: the write-ahead log and its index next to the file ARE the
+# committed-but-not-yet-checkpointed transactions of a process that was killed (A9) - removing them on open silently drops acknowledged inserts
+contract(f"{DBF}::Database._connect", "_connect.removes-no-file",
+         vars={"self": db(f"{IDB}::IdentityDatabase")}, call="self._connect()", raises=[],
+         ensures=["len(calls('fs.delete')) == 0", "len(calls('sqlite3.connect')) == 1 and calls('sqlite3.connect')[0].args[0] == self._file_path",
+                  "self._connection is not None and self._cursor is not None"],
+         note="connecting opens exactly the database file it was given and touches nothing else on disk")
+
+
 def db_events(tr):
     return [e.name for e in tr if e.name in ("cursor.execute", "connection.commit")]
 
